@@ -198,7 +198,13 @@ def run_property(prop, tier="quick", facts_path=None, write_evidence=True, repo=
             continue
         seen_keys.add(o.fkey())
         print("KNOWN-FINDING: property=%s %s -- %s" % (prop, o.fkey(), known[o.fkey()].get("what", o.msg)))
-    for i, o in enumerate(new):
+    uniq = []
+    seen_new = set()
+    for o in new:
+        if o.fkey() not in seen_new:
+            seen_new.add(o.fkey())
+            uniq.append(o)
+    for i, o in enumerate(uniq):
         rp = os.path.join(VERIF, "evidence", "replay", prop, "%d.json" % i)
         if write_evidence:
             with open(rp, "w") as fh:
